@@ -646,8 +646,43 @@ pub fn c09(tier: Tier) -> ! {
             }
         }
     }
+    // (3b) the output files are a function of the arguments: also when the --outfile exists
+    let shared_pairs = crate::io_props::shared_outfile_histories(&mut run);
+    run.set("ordered_command_pairs_sharing_an_outfile", shared_pairs);
     cli::cleanup();
     run.set("binary_runs", bin_runs);
+    // (3c) a copy is the state: optimised states (cell ratio and lengths no longer round numbers)
+    // cloned and cloned again serialise to the same bytes as the original, and the copy
+    // optimises exactly like the original
+    let mut clones = 0u64;
+    let mut clone_pool: Vec<(String, AnyState)> = c09_states();
+    clone_pool.push(("p1 circle hard".to_string(), AnyState::from_group("p1", &ShapeSpec::Circle)));
+    clone_pool.push(("p2gg trimer hard".to_string(), AnyState::from_group("p2gg", &ShapeSpec::Trimer(0.637556, 120., 1.))));
+    clone_pool.push(("p1m1 circle LJ".to_string(), AnyState::from_group("p1m1", &ShapeSpec::LjCircle)));
+    'outer: for (label, init) in clone_pool.iter() {
+        for seed in 0..tier.pick(12u64, 40u64) {
+            let st = match crate::rsx::dense_start(init, 120, seed) {
+                Some(s) => s,
+                None => continue,
+            };
+            clones += 1;
+            let a = serde_json::to_string(&st.to_json()).unwrap_or_default();
+            let c1 = st.clone();
+            let c2 = c1.clone();
+            let b = serde_json::to_string(&c2.to_json()).unwrap_or_default();
+            if a != b {
+                run.fail(None, &format!("{} (optimised with seed {}): a copy of a copy of the state does not serialise to the same bytes as the state", label, seed), json!({"engine": "clone", "state": st.to_json(), "copy": c2.to_json()}));
+                break 'outer;
+            }
+            let (r1, r2) = (crate::rsx::dense_start(&st, 40, 5), crate::rsx::dense_start(&c2, 40, 5));
+            let j = |x: &Option<AnyState>| x.as_ref().map(|s| serde_json::to_string(&s.to_json()).unwrap_or_default());
+            if j(&r1) != j(&r2) {
+                run.fail(None, &format!("{} (optimised with seed {}): optimising a copy of the state gives another result than optimising the state (same settings and seed)", label, seed), json!({"engine": "clone", "state": st.to_json()}));
+                break 'outer;
+            }
+        }
+    }
+    run.set("optimised_states_cloned_and_compared", clones);
     // (4) thorough tier: the same bodies free-running under Miri's data-race detector (run by
     // the driver script, result handed over in the environment)
     if tier == Tier::Thorough {
